@@ -487,6 +487,10 @@ pub enum Case19 {
     Reuse { calls: Vec<Call> },
     /// a verdict of one of the side crates (shuttle schedule / Miri seeds)
     Side(crate::props::c19_side::SideCase),
+    /// the calls are made from the destructor of a caller's thread-local
+    /// while a thread exits; each must return what it returns on an
+    /// ordinary thread
+    AtThreadExit { calls: Vec<Call>, order: crate::env::Teardown },
 }
 
 fn printable(b: &[u8]) -> String {
@@ -501,6 +505,52 @@ fn printable(b: &[u8]) -> String {
 fn exec_c19(case: &Case19, obs: &mut Obs) -> Result<(), Failure> {
     match case {
         Case19::Side(s) => crate::props::c19_side::exec_side(s),
+        Case19::AtThreadExit { calls, order } => {
+            obs.count("env:calls-at-thread-exit");
+            obs.steps += 3 * calls.len() as u64;
+            let recorded: Vec<String> = calls.iter().map(perform).collect();
+            let (c1, c2) = (calls.clone(), calls.clone());
+            let got = crate::env::at_thread_exit(
+                *order,
+                move || {
+                    for c in &c1 {
+                        let _ = perform(c);
+                    }
+                },
+                move || c2.iter().map(perform).collect::<Vec<String>>(),
+            );
+            let cut = |s: &str| if s.len() > 200 { format!("{}...", &s[..200]) } else { s.to_string() };
+            match got {
+                None => Ok(()),
+                Some(Err(p)) => Err(Failure::new(
+                    "C19",
+                    "same-result-at-thread-exit",
+                    "panic",
+                    format!(
+                        "calls made from a thread-local destructor at thread exit ({order:?}) panicked: {}",
+                        p.downcast_ref::<&str>().map(|s| s.to_string()).or_else(|| p.downcast_ref::<String>().cloned()).unwrap_or_default()
+                    ),
+                )),
+                Some(Ok(v)) => {
+                    for (i, (a, b)) in recorded.iter().zip(v.iter()).enumerate() {
+                        if a != b {
+                            return Err(Failure::new(
+                                "C19",
+                                "same-result-at-thread-exit",
+                                calls[i].name(),
+                                format!(
+                                    "{} (call #{i}) returns {} on an ordinary thread but {} from a thread-local destructor at thread exit ({order:?})",
+                                    calls[i].name(),
+                                    cut(a),
+                                    cut(b)
+                                ),
+                            ));
+                        }
+                    }
+                    Ok(())
+                }
+            }
+        }
         Case19::Reuse { calls } => {
             let n = match calls.first().and_then(caller_buffer) {
                 Some(b) => b.len(),
@@ -703,6 +753,20 @@ impl Scenario for C19 {
             }
             ctx.check::<C19>(&Case19::Reuse { calls: reuse });
         }
+        // the same calls from a thread-local destructor while a thread exits
+        if ctx.run % 2 == 0 {
+            let order = *sch.pick(&[
+                crate::env::Teardown::RegisteredFirst,
+                crate::env::Teardown::RegisteredFirst,
+                crate::env::Teardown::RegisteredLast,
+                crate::env::Teardown::Cold,
+            ]);
+            let k = sch.urange(2, 6).min(calls.len());
+            ctx.check::<C19>(&Case19::AtThreadExit {
+                calls: calls[..k].to_vec(),
+                order,
+            });
+        }
         ctx.obs.distinct(fnv1a(&serde_json::to_vec(&case).unwrap()));
         if ctx.run == 0 {
             let c2 = case.clone();
@@ -719,6 +783,17 @@ impl Scenario for C19 {
     fn shrink(case: &Case19) -> Vec<Case19> {
         match case {
             Case19::Side(_) => Vec::new(),
+            Case19::AtThreadExit { calls, order } => {
+                let mut out = Vec::new();
+                for i in 0..calls.len() {
+                    let mut c = calls.clone();
+                    c.remove(i);
+                    if !c.is_empty() {
+                        out.push(Case19::AtThreadExit { calls: c, order: *order });
+                    }
+                }
+                out
+            }
             Case19::Reuse { calls } => {
                 let mut out = Vec::new();
                 if calls.len() > 2 {
